@@ -50,7 +50,11 @@ def strip_tags(value: str) -> str:
     """Return the given value with all HTML tags removed."""
     if "<" in value and ">" in value:
         parser = StripParser()
-        parser.feed(value)
-        parser.close()
+        try:
+            parser.feed(value)
+            parser.close()
+        except AssertionError as err:
+            # html.parser's way of refusing a malformed marked section, `<![x]>`.
+            raise ValueError(f"malformed markup, {err}") from err
         return parser.get_data()
     return value
